@@ -83,6 +83,23 @@ def physics_case(args):
             if np.abs(occ - exp).max() > TOL:
                 bad.append((f"bath|occupation|wrong-value", f"d={d} T={temp} w={w} change_only={change_only}: dev "
                                                             f"{np.abs(occ - exp).max():.2e}"))
+    # a second object that is never asked for occupations: its table of system correlations grows query by query
+    # (pairs in ascending order of the later time), so every answer comes from an extended table
+    grow = oq.bath_dynamics.TwoTimeBathCorrelations(sysm, bath, pt, initial_state=rho)
+    for (k1, k2) in sorted(pairs, key=lambda p_: (p_[1], p_[0])):
+        t1, t2 = float(f"{k1 * dt:.10g}"), float(f"{k2 * dt:.10g}")
+        j1, j2 = bath.correlations.spectral_density(0.7), bath.correlations.spectral_density(1.3)
+        got = grow.correlation(0.7, t1, freq_2=1.3, time_2=t2, dagg=(1, 0), progress_type="silent")
+        nev += 1
+        exp = closed_corr(j1, j2, 0.7, t1, 1.3, t2, (1, 0), o2, temp, False)
+        if abs(got - exp) > TOL:
+            bad.append(("bath|correlation|after-shorter-queries-on-the-same-object|wrong-value",
+                        f"d={d} T={temp} dt={dts} t=({t1},{t2}): {got} vs {exp}"))
+    ts, occ = grow.occupation(1.3, change_only=True, progress_type="silent")
+    nev += 1
+    exp = bath.correlations.spectral_density(1.3) * o2 * 2 * (1 - np.cos(1.3 * dt * np.arange(n + 1))) / 1.3 ** 2
+    if len(occ) != n + 1 or np.abs(occ - exp).max() > TOL:
+        bad.append(("bath|occupation|after-shorter-queries-on-the-same-object|wrong-value", f"d={d} T={temp} dt={dts}"))
     for (w1, w2), dagg, (k1, k2) in itertools.product([(0.7, 0.7), (0.7, 1.3), (3.0, 1.3)],
                                                       [(1, 0), (0, 1), (1, 1), (0, 0)],
                                                       pairs):
